@@ -70,6 +70,14 @@ def gen_geom(rng, it):
     if it % 7 == 0:
         xll, yll = 112.0, -44.5          # AWAP-like
         csz = 0.05
+    if it % 11 == 6:
+        # global grids: the columns span exactly 360 (degrees), in various cell sizes; or
+        # a projected grid that happens to be 360 units wide
+        nc_, cz_ = [(360, 1.0), (720, 0.5), (36, 10.0), (1440, 0.25), (3600, 0.1)][
+            (it // 11) % 5]
+        ncols, csz = nc_, cz_
+        nrows = [nc_ // 2, 3, 1][(it // 55) % 3]
+        xll, yll = [(-180.0, -90.0), (0.0, -90.0), (1000.0, 5.0)][(it // 11) % 3]
     if it % 7 == 3:
         # grids placed around the origin: the point (0, 0) is inside some cell
         xll = -csz * (ncols // 2 + float(rng.choice([0.5, 0.25, 0.0625])))
@@ -264,7 +272,12 @@ def run_geom_case(ctx, case):
     ctx.presentations("cell2rowcol", lambda c_: np.asarray(gr.cell2rowcol(c_)), [ci],
                       np.asarray(gr.cell2rowcol(ci)), case, prng, n=1, rtol=0.0)
     # ---- outside points
-    dists = [1e-9 * 4, 1e-6, 0.5, 1.0 - 1e-6, 1.0, 1.5, 10.0, 1e3, 1e6]
+    dists = [1e-9 * 4, 1e-6, 0.5, 1.0 - 1e-6, 1.0, 1.5, 10.0, 1e3, 1e6,
+             # whole numbers of cells that are powers of two and their neighbours, out to
+             # where row x ncols no longer fits 64 bits, plus one full turn of 360
+             float(2.0 ** int(rng.integers(30, 63))), float(2.0 ** int(rng.integers(44, 64))),
+             float(2.0 ** 54), float(2.0 ** 59 + 2.0 ** 12), 360.0 / csz, 1e15, 9.3e18, 1e30] \
+        + [float(2.0 ** k_) for k_ in range(40, 64, 1 + seed % 3)]
     x0, x1 = xll, xll + ncols * csz
     y0, y1 = yll, yll + nrows * csz
     sides = []
